@@ -68,7 +68,10 @@ class Page(HTMLParser):
             self.bad.append('unknown declaration')
 
 
-def make_traceback(exc_kind, msg, depth, with_source):
+FNAMES = [None, None, '<zq9string>', '</title><zq9fn x="1">', '/srv/a&b/"<zq9q>".py', "<zq9stdin>'", '{zq9tpl}/{#x}{/x}.py', '/srv/é/<zq9u>.py']
+
+
+def make_traceback(exc_kind, msg, depth, with_source, fname_kind=0):
     """a real traceback text produced by the running interpreter"""
     mod = types.ModuleType('zq_pkg.zq_mod')
 
@@ -79,16 +82,18 @@ def make_traceback(exc_kind, msg, depth, with_source):
     excs = {'ValueError': ValueError, 'KeyError': KeyError, 'RuntimeError': RuntimeError, 'Custom': Err,
             'OSError': OSError, 'ZeroDivisionError': ZeroDivisionError, 'ImportError': ImportError, 'NameError': NameError,
             'UnicodeError': UnicodeError, 'AssertionError': AssertionError}
-    src = 'def f0(e):\n    raise e\n'
+    src = 'def f0(e):\n    raise e  # <zq9c0> & "q" {zq9c1}\n'
     for i in range(1, depth):
         src += 'def f%d(e):\n    return f%d(e)\n' % (i, i - 1)
-    fname = '/tmp/zq_src_%d.py' % depth if not with_source else __file__
+    # the file name of the generated frames: plain, or carrying markup / template syntax (as '<string>' and '<stdin>' do)
+    hostile = FNAMES[fname_kind % len(FNAMES)]
+    fname = hostile or ('/tmp/zq_src_%d.py' % depth if not with_source else '<zq9 generated %d>' % depth)
     ns = {}
-    code = compile(src, fname if not with_source else '<zq generated %d>' % depth, 'exec')
+    code = compile(src, fname, 'exec')
     exec(code, ns)
     if with_source:
         import linecache
-        linecache.cache['<zq generated %d>' % depth] = (len(src), None, src.splitlines(True), '<zq generated %d>' % depth)
+        linecache.cache[fname] = (len(src), None, src.splitlines(True), fname)
     try:
         ns['f%d' % (depth - 1)](excs[exc_kind](msg))
     except Exception:
@@ -137,7 +142,7 @@ def strategy():
     real = st.fixed_dictionaries({'kind': st.just('real'),
                                   'exc': st.sampled_from(['ValueError', 'KeyError', 'RuntimeError', 'Custom', 'OSError', 'ImportError',
                                                           'NameError', 'UnicodeError', 'AssertionError', 'ZeroDivisionError']),
-                                  'msg': msg, 'depth': st.integers(1, 6), 'source': st.booleans(),
+                                  'msg': msg, 'depth': st.integers(1, 6), 'source': st.booleans(), 'fname': st.integers(0, len(FNAMES) - 1),
                                   'mangle': st.sampled_from(['none', 'none', 'none', 'truncate-head', 'truncate-tail', 'double', 'prefix-junk',
                                                              'crlf', 'trailing-blank', 'leading-blank'])})
     syn = st.fixed_dictionaries({'kind': st.just('syntax'), 'code': st.sampled_from(['x = (', 'def f(:\n  pass', 'a b', 'if x\n  y', '"unterminated',
@@ -167,7 +172,7 @@ def strategy():
 def materialise(spec):
     k = spec['kind']
     if k == 'real':
-        tb = make_traceback(spec['exc'], spec['msg'], spec['depth'], spec['source'])
+        tb = make_traceback(spec['exc'], spec['msg'], spec['depth'], spec['source'], spec.get('fname', 0))
         m = spec['mangle']
         lines = tb.splitlines(True)
         if m == 'truncate-head':
